@@ -156,6 +156,7 @@ func gen09(tier string, emit func(Case)) {
 	thorough := tier == "thorough"
 	genRejected(emit)
 	genAnnotated(emit)
+	genSignGap(emit)
 	type prog struct {
 		root *gen.Node
 		kind string
@@ -241,6 +242,24 @@ func genAnnotated(emit func(Case)) {
 				emit(Case{Base: base, Variant: p.pre + m + " " + p.ann + "\n" + c + "\n" + p.post, Must: true, Where: "after-annotation", Deco: "comment", Prog: p.name})
 				emit(Case{Base: base, Variant: p.pre + c + "\n" + m + " " + p.ann + "\n" + c + "\n" + p.post, Must: true, Where: "around-annotation", Deco: "comment", Prog: p.name})
 			}
+		}
+	}
+}
+
+// genSignGap: layout and comments between a unary minus and its operand, for boundary literals whose acceptance
+// depends on the sign (2^63 in decimal and hex), in set, declare, comparison and argument positions.
+func genSignGap(emit func(Case)) {
+	for _, lit := range []string{"9223372036854775808", "0x8000000000000000", "9223372036854775807", "1", "1.5", "5s"} {
+		typ := "INTEGER"
+		if strings.Contains(lit, ".") && !strings.HasPrefix(lit, "0x") {
+			typ = "FLOAT"
+		} else if strings.HasSuffix(lit, "s") && !strings.HasPrefix(lit, "0x") {
+			typ = "RTIME"
+		}
+		tmpl := "sub vcl_recv {\n  #FASTLY recv\n  declare local var.v " + typ + ";\n  set var.v = -GAP" + lit + ";\n  log \"v=\" var.v;\n  if (var.v == -GAP" + lit + ") { log \"eq\"; }\n  return(pass);\n}\n"
+		base := strings.ReplaceAll(tmpl, "GAP", "")
+		for _, g := range []struct{ name, text string }{{"space", " "}, {"tab", "\t"}, {"newline", "\n"}, {"block", "/* c */"}, {"block-spaces", " /* c */ "}, {"sharp", " # c\n"}, {"slash", "// c\n"}} {
+			emit(Case{Base: base, Variant: strings.ReplaceAll(tmpl, "GAP", g.text), Exec: true, Must: true, Where: "between-minus-and-literal", Deco: g.name, Prog: "sign-gap " + typ})
 		}
 	}
 }
